@@ -91,6 +91,9 @@ const contractK = `access(all) contract K {
     access(all) event ResourceDestroyed(mark: Int = self.mark, bal: Int = base.balance)
     init(_ m: Int) { self.mark = m }
   }
+  access(all) attachment BoxTag for Box {
+    access(all) event ResourceDestroyed(n: Int = 1)
+  }
   access(all) attachment Audit for HasBalance {
     access(all) fun seen(): Int { return base.balance }
   }
@@ -250,6 +253,9 @@ func snippets34() []snippet {
 		S("attachments", "attach-iface", "", `let $v: @{K.HasBalance} <- attach K.Audit() to <- K.mkVault(4); out.append($v[K.Audit]?.seen()); let $r = &$v as &{K.HasBalance}; out.append($r[K.Audit]?.seen()); destroy $v`),
 		S("attachments", "attach-destroy-event", "", `let $v <- attach K.Stamp(7) to <- K.mkVault(5); out.append($v[K.Stamp]?.mark); destroy $v; out.append("destroyed")`),
 		S("attachments", "attach-remove-event", "", `let $v <- attach K.Stamp(8) to <- K.mkVault(6); remove K.Stamp from $v; out.append($v[K.Stamp] == nil); destroy $v`),
+		S("attachments", "destroy-order-nested-and-attachment", "", `let $b <- attach K.BoxTag() to <- K.mkBox(); $b.put(<- K.mkVault(1)); let $old <- $b.named["k"] <- K.mkVault(2); destroy $old; destroy $b; out.append("destroyed")`),
+		S("composites", "nested-array-swap", "", `let $h: @[[K.Vault]] <- [<- [<- K.mkVault(1)]]; var $o <- K.mkVault(2); $h[0][0] <-> $o; out.append($o.balance); out.append($h[0][0].balance); destroy $o; destroy $h`),
+		S("references", "ref-equality", "", `let $a = 1; let $b = 1; out.append((&$a as &Int) == (&$b as &Int)); out.append((&$a as &Int) == (&$a as &Int)); let $s = "x"; let $t = "x"; out.append((&$s as &String) == (&$t as &String)); let $x: Int128 = 5; let $y: Int128 = 5; out.append((&$x as &Int128) == (&$y as &Int128)); let $arr = [1]; out.append((&$arr as &[Int]) == (&$arr as &[Int]))`),
 		// events
 		S("events", "emit", "", `K.fire(1); K.fire(2); out.append("fired")`),
 		S("events", "emit-create-destroy", "", `let $v <- K.mkVault(1); let $w <- K.mkVault(2); destroy $v; destroy $w; out.append("done")`),
